@@ -10,6 +10,7 @@ import (
 
 	"github.com/shutter-network/rolling-shutter/rolling-shutter/shmsg"
 
+	"verif/sim/ref"
 	"verif/sim/simkit"
 	"verif/sim/simtm"
 )
@@ -106,7 +107,7 @@ func (w *govWorld) badPayload() (*shmsg.Message, string) {
 	short := []byte{1, 2, 3}
 	a := w.keys[0].Addr.Bytes()
 	b := w.keys[len(w.keys)-1].Addr.Bytes()
-	switch c.Intn(12, "bad-kind") {
+	switch c.Intn(14, "bad-kind") {
 	case 0:
 		return &shmsg.Message{}, "empty message"
 	case 1:
@@ -131,6 +132,17 @@ func (w *govWorld) badPayload() (*shmsg.Message, string) {
 		return &shmsg.Message{Payload: &shmsg.Message_PolyCommitment{PolyCommitment: &shmsg.PolyCommitment{Eon: eon, Gammas: [][]byte{c.Bytes(96, "gamma")}}}}, "poly commitment with invalid point"
 	case 9:
 		return &shmsg.Message{Payload: &shmsg.Message_PolyCommitment{PolyCommitment: &shmsg.PolyCommitment{Eon: eon, Gammas: [][]byte{short}}}}, "poly commitment with short point"
+	case 12, 13:
+		// a commitment of plausible degree in which one gamma is a point of the twist curve
+		// outside the group G2 (judged by gnark-crypto): not a group element, must be refused
+		g := w.gammasOf(c.Intn(3, "gamma-degree"))
+		var enc [][]byte
+		for _, p := range *g {
+			enc = append(enc, p.Compress())
+		}
+		off := ref.OffSubgroupG2(4)
+		enc[c.Intn(len(enc), "off-position")] = off[c.Intn(len(off), "off-point")]
+		return &shmsg.Message{Payload: &shmsg.Message_PolyCommitment{PolyCommitment: &shmsg.PolyCommitment{Eon: eon, Gammas: enc}}}, "poly commitment with a gamma outside G2"
 	case 10:
 		return &shmsg.Message{Payload: &shmsg.Message_Accusation{Accusation: &shmsg.Accusation{Eon: eon, Accused: [][]byte{b, b}}}}, "accusation with duplicate accused"
 	default:
